@@ -9,7 +9,7 @@ TRUST = ("Trusted: go/ssa's translation, the gosym interpreter, z3 5.1.0; exact 
 claimed = {
  "C19": dict(
   text="Bounded symbolic execution of the real camelcase.Split and the six converters from their go/ssa form: every byte string up to the bound (quick: Split <= 5 bytes, converters <= 3 bytes; thorough: 7 / 5) is covered by path exploration with solver-decided branch feasibility; assertions (no panic, non-empty words, concatenation == input, invalid UTF-8 => single word, same result twice) are discharged on every path. Nothing is claimed beyond the byte-length bound.",
-  note="Unicode class predicates are exact SMT definitions generated from the toolchain tables; golang.org/x/text/cases.Title(..).String is a contract stub (total, arbitrary result).", ref="DESIGN.md §3 C19"),
+  note="Unicode class predicates are exact SMT definitions generated from the toolchain tables; golang.org/x/text/cases.Title(..).String is a contract stub (total, arbitrary result).", ref="DESIGN.md §3"),
  "C15": dict(
   text="Bounded symbolic execution of the real ParseTypeRef / TypeRef.String / ParseRef: every reference tree shape up to the bound (quick: 183 shapes of <= 4 levels x <= 2 arguments, 85 shapes with <= 3 arguments, per-node path split on <= 3 levels; thorough: 33 673 shapes of <= 5 levels) with symbolic identifier and path bytes must parse to exactly the reference tree and print back to the input; bracket-free references of arbitrary bytes (<= 5 / <= 8) are split at the last dot and ParseRef agrees.",
   note="Inside brackets identifier/path bytes are ASCII and 1-2 bytes long; the namer-rewriting half runs NewRawNamer over the real tracker on a nested generic reference with symbolic paths.", ref="DESIGN.md §3 C15"),
